@@ -215,7 +215,7 @@ def cache_threading(ctx, rule):
                     ctx.ok(rule, inst, 'passes its own cache parameter', ctx.where(DB, bb))
                     continue
                 # a copy: every Ok return reachable from here must be dominated by a store through the parameter
-                oks = [b3 for b3, j3, st3 in DB.stmts() if st3['k'] == '=' and st3['pl']['l'] == 0 and st3['rv']['k'] == 'agg' and st3['rv'].get('var') == 'Ok' and b3 in DB.reachable(bb)]
+                oks = [b3 for b3, j3, st3 in DB.stmts() if st3['k'] == '=' and DB.is_ret_slot(st3['pl']['l']) and st3['rv']['k'] == 'agg' and st3['rv'].get('var') == 'Ok' and b3 in DB.reachable(bb)]
                 stores = [b3 for b3, j3, st3 in DB.stmts() if st3['k'] == '=' and st3['pl']['l'] in params and st3['pl'].get('p') == ['*']]
                 missing = [b3 for b3 in oks if not any(DB.block_dominates(s_, b3) for s_ in stores)]
                 if oks and not missing:
